@@ -70,6 +70,9 @@ func c23Scenarios(thorough bool) []c23Scenario {
 		{name: "invalidate pass vs eviction of the next bucket", setup: T(G(0, 0, 60), G(1, 0, 60), G(2, 0, 60), G(0, 0, 60), G(2, 0, 60)),
 			threads: [][]c23Op{T(I(10), G(2, 0, 60)), T(LF)}},
 		{name: "tiny limits then unlimited", threads: [][]c23Op{T(G(0, 0, 60), G(0, 0, 60)), T(L(1), L(0))}},
+		// a cached chunk is invalidated, its reload fails (explorer choice), and it is requested again: the
+		// failed reload must not make the old rows look fresh
+		{name: "invalidate, failed reload, get again", fails: true, setup: T(G(0, 0, 60)), threads: [][]c23Op{T(I(5), G(0, 0, 60), G(0, 0, 60)), T(G(0, 30, 60))}},
 		{name: "loader failures", fails: true, threads: [][]c23Op{T(G(0, 0, 60), G(0, 0, 60)), T(G(0, 30, 60))}},
 	}
 	if thorough {
